@@ -202,6 +202,71 @@ func init() {
 				}
 			}
 		})
+		// sizes: the box of a million and more vertices (the extreme ones among the very last), ten thousand and more nested
+		// collections in one value - cloned, compared, bounded; judged here against plain scans, the verdict by TLC
+		for _, n := range []int{1<<20 + 1, 1<<20 + 5, 1<<20 + 7, 1 << 20, c.pick(1<<18+3, 1<<21+3)} {
+			e := map[string]interface{}{"k": "corebig", "n": n, "nt": 1, "ok": 1, "what": ""}
+			setCurrent("Bound(big)", e)
+			site := guard(func() {
+				pts := make([]orb.Point, n)
+				for j := range pts {
+					pts[j] = orb.Point{float64(j%1000) - 500, float64(j%777) - 300}
+				}
+				hi, lo := 1+c.rng.Intn(6), 1+c.rng.Intn(6)
+				pts[n-hi], pts[n-lo] = orb.Point{5000, 4000}, orb.Point{-6000, -7000}
+				if hi == lo {
+					pts[n-1] = orb.Point{5000, 4000}
+					pts[0] = orb.Point{-6000, -7000}
+				}
+				want := orb.Bound{Min: orb.Point{-6000, -7000}, Max: orb.Point{5000, 4000}}
+				for name, g := range map[string]orb.Geometry{"MultiPoint": orb.MultiPoint(pts), "LineString": orb.LineString(pts), "Ring": orb.Ring(pts),
+					"Polygon": orb.Polygon{orb.Ring(pts)}, "MultiLineString": orb.MultiLineString{{{0, 0}}, orb.LineString(pts)}, "Collection": orb.Collection{orb.Point{1, 1}, orb.LineString(pts)}} {
+					if b := g.Bound(); b != want {
+						e["ok"], e["what"] = 0, "bound of a "+name
+					}
+				}
+				if cl := orb.LineString(pts).Clone(); !cl.Equal(orb.LineString(pts)) || !orb.Equal(orb.Clone(orb.MultiPoint(pts)), orb.MultiPoint(pts)) {
+					e["ok"], e["what"] = 0, "clone / equal"
+				}
+			})
+			if site != "" {
+				c.emit(panicEvent("Bound(big)", site, e))
+				continue
+			}
+			c.emit(e)
+		}
+		for _, n := range []int{10001, 25000, c.pick(40000, 200000)} {
+			e := map[string]interface{}{"k": "corebig", "n": n, "nt": 1, "ok": 1, "what": ""}
+			setCurrent("Collection(many)", e)
+			site := guard(func() {
+				col := make(orb.Collection, n)
+				for j := range col {
+					col[j] = orb.Collection{orb.Point{float64(j % 100), float64(j % 37)}}
+					if j%5 == 0 {
+						col[j] = orb.Collection{orb.Collection{orb.MultiPoint{{float64(j % 100), float64(j % 37)}}}}
+					}
+				}
+				col[n-1] = orb.Collection{orb.Point{-9, 500}}
+				cl := col.Clone()
+				gc := orb.Clone(col)
+				if !orb.Equal(col, cl) || !orb.Equal(col, col) || !col.Equal(cl) || !orb.Equal(gc, col) {
+					e["ok"], e["what"] = 0, "a collection of many collections is not equal to its clone / itself"
+				}
+				if b := col.Bound(); b != (orb.Bound{Min: orb.Point{-9, 0}, Max: orb.Point{99, 500}}) {
+					e["ok"], e["what"] = 0, "bound of a collection of many collections"
+				}
+				other := cl.Clone()
+				other[n/2] = orb.Collection{orb.Point{1e6, 1e6}}
+				if orb.Equal(col, other) {
+					e["ok"], e["what"] = 0, "collections that differ in one member compare equal"
+				}
+			})
+			if site != "" {
+				c.emit(panicEvent("Collection(many)", site, e))
+				continue
+			}
+			c.emit(e)
+		}
 		n := c.pick(6000, 150000)
 		for i := 0; i < n; i++ {
 			switch i % 6 {
@@ -457,6 +522,16 @@ func init() {
 				c.emit(e3)
 			case 2, 3: // Bound is the tight box
 				g := c06Shape(c, 2)
+				if c.rng.Intn(12) == 0 {
+					// nested collections that are views of one member array (all[:1], all[:2], all): each is the collection of
+					// the members it holds, however many share their first element
+					iv := func() float64 { return float64(c.rng.Intn(9) - 4) }
+					all := orb.Collection{orb.Point{iv(), iv()}, orb.LineString{{iv(), iv()}, {iv(), iv()}}, orb.Point{iv(), iv()}}
+					g = orb.Collection{all[:1], all[:2], all}
+					if c.rng.Intn(2) == 0 {
+						g = orb.Collection{all[:2], all[:1], orb.Collection{all}}
+					}
+				}
 				gm, _ := encGeom(g, intFn)
 				e := map[string]interface{}{"k": "bound", "g": gm}
 				setCurrent("Bound", gm)
